@@ -514,3 +514,651 @@ def _d2_one(vc):
     vc.ensure('one.ends_done_or_abandoned', Or(task.state, st.is_set(SR.DAEMON_ABANDONED)))
     vc.canary('canary.one.never_abandons', not any(e[0] == 'stopper.set' and e[2] is SR.DAEMON_ABANDONED for e in effects))
     return ('one', len(effects))
+
+
+# =============================================================================================== D1
+class RegDict(LiveDict):
+    """running_daemons as seen for ONE handler id: membership is a (symbolic) boolean; every access is recorded."""
+    def __init__(self, vc, name, key, present, value=None):
+        super().__init__(name)
+        self.vc, self.key, self.present, self.value = vc, key, present, value
+
+    def _mine(self, k):
+        if k != self.key:
+            raise Unsupported(f'{self.name}: access to another key {k!r}')
+
+    def __contains__(self, k):
+        self._mine(k)
+        self.vc.emit('daemons.contains', k)
+        return bool(self.present)
+
+    def __setitem__(self, k, v):
+        self._mine(k)
+        self.vc.emit('daemons.set', k, v)
+        self.present, self.value = True, v
+
+    def __getitem__(self, k):
+        self._mine(k)
+        if not self.present:
+            raise KeyError(k)
+        return self.value
+
+    def __delitem__(self, k):
+        self._mine(k)
+        if not self.present:
+            raise KeyError(k)
+        self.vc.emit('daemons.del', k)
+        self.present, self.value = False, None
+
+
+class TracedSet(set):
+    def __init__(self, vc, items=()):
+        super().__init__(items)
+        self._vc = vc
+
+    def add(self, x):
+        self._vc.emit('forever_stopped.add', x)
+        super().add(x)
+
+
+class TracedMemory:
+    """DaemonsMemory: attribute writes are recorded on the ghost trace"""
+    def __init__(self, vc, **kw):
+        object.__setattr__(self, '_vc', vc)
+        for k, v in kw.items():
+            object.__setattr__(self, k, v)
+
+    def __setattr__(self, k, v):
+        self._vc.emit('memory.write', k, v)
+        object.__setattr__(self, k, v)
+
+
+@harness('D1', targets=['kopf._core.engines.daemons.spawn_daemons', 'kopf._core.engines.daemons._runner'], props=['C09'],
+         clauses=['spawn_only_absent', 'atomic_register', 'runner_wired', 'frame',
+                  'wraps_by_kind', 'forever_stopped_iff_self_exit', 'removal_last', 'done_flag', 'propagates'],
+         canaries=['canary.always_spawns', 'canary.never_forever_stopped'],
+         trusted=['asyncio.create_task(coro): returns a new task, does not run the coroutine before the next suspension of the caller',
+                  'daemons._daemon / daemons._timer (D4-D6): suspend; return, raise any exception or are cancelled',
+                  'aioenums.FlagSetter by contract (SymStopper); loggers.LocalObjectLogger: no effect'],
+         assumes=['spawn_daemons: memory.live_fresh_body is not None (H7.body_before_spawn)',
+                  '_runner: daemons[handler.id] is the runner\'s own record when it starts (D1.atomic_register) and nobody else '
+                  'deletes it (only _runner deletes entries); handler is a DaemonHandler or a TimerHandler'])
+def D1(vc):
+    """
+    At most one instance per (object, handler): running_daemons[id] exists exactly while a runner of id is alive.
+    spawn_daemons (loop contract: ONE arbitrary handler of the given sequence):
+      spawn_only_absent  a task is created (exactly one) iff handler.id is not in the running-daemons dict; an
+                         existing entry is neither replaced nor touched;
+      atomic_register    the new task is stored under handler.id, and between the membership test, the task creation
+                         and the store there is no suspension point (so neither the new runner nor another
+                         processing cycle can observe the dict without the entry);
+      runner_wired       the stored record holds the created task, the handler and the very stopper given to the
+                         runner's cause (a fresh, unset one); the runner gets the same dict (for self-removal),
+                         the handler and the memory.
+    _runner:
+      wraps_by_kind      daemons run in _daemon, timers in _timer, exactly once, with the handler and cause given;
+      forever_stopped_iff_self_exit  handler.id is added to memory.forever_stopped iff no stop reason was ever
+                         given when the wrapped call ended (any way: return, exception, cancellation);
+      removal_last       the own entry is deleted exactly once, after the wrapped call has ended; after the deletion
+                         there is no suspension point and no other mutation of the memory (only the DONE flag);
+      done_flag          the stopper carries DONE at the end;  propagates: exceptions/cancellation are not swallowed.
+    """
+    if vc.nondet(2, 'spawn_daemons | _runner') == 0:
+        return _d1_spawn(vc)
+    return _d1_runner(vc)
+
+
+def _d1_spawn(vc):
+    clock = Clock()
+    g = Ghost(calls=0, it=None)
+    settings = Opaque('settings')
+    body = Opaque('live-body')
+    hs = Opaque('handlers')
+    cause = Opaque('spawning-cause', resource=Opaque('resource'), indices=Opaque('indices'), logger=NullLogger(),
+                   memo=Opaque('memo'), body=Opaque('cause-body'))
+    running = RegDict(vc, 'running_daemons', key='d', present=False)
+    memory = TracedMemory(vc, live_fresh_body=body, forever_stopped=set(), running_daemons=running,
+                          idle_reset_time=clock.now)
+
+    def runner(**kw):
+        job = Ghost(kw=kw)
+        vc.emit('runner.coro', job)
+        return job
+
+    def create_task(coro, *, name=None, **kw):
+        task = SymTask(vc, clock, 'new-task', done=False)
+        vc.emit('create_task', coro, task)
+        return task
+
+    async def sleep(*a, **kw):
+        await suspend('asyncio.sleep')
+
+    def on_suspend(site):
+        vc.emit('suspend', site)
+
+    def element(loc, iterable):
+        vc.ensure('frame', iterable is hs)
+        if vc.nondet(2, 'exhausted?') == 0:
+            return _STOP
+        h = mk_handler(vc, 'd', sym=False)
+        running.present = vc.bool('d in running_daemons')
+        running.value = Opaque('existing-daemon')
+        g.it = Ghost(h=h, present0=running.present, value0=running.value, since=len(vc.trace))
+        return h
+
+    def invariant(loc):
+        g.calls += 1
+        if g.calls == 3:
+            _d1_spawn_turn(vc, g, running, memory, settings)
+        return True
+
+    ld = vc.load('kopf._core.engines.daemons', 'spawn_daemons', stubs={
+        '_runner': runner, 'asyncio.create_task': create_task, 'asyncio.sleep': sleep,
+        'loggers.LocalObjectLogger': lambda **kw: NullLogger(),
+    }, loops={1: LoopSpec('for handler in handlers', invariant=invariant, element=element)})
+    result = vc.drive(ld.fn(settings=settings, handlers=hs, daemons=running, cause=cause, memory=memory), on_suspend)
+    vc.ensure('frame', not any(e[0] in ('create_task', 'daemons.set', 'daemons.del', 'memory.write') for e in vc.trace))
+    return ('spawn', 'returned', len(result))
+
+
+def _d1_spawn_turn(vc, g, running, memory, settings):
+    it = g.it
+    tr = vc.trace[it.since:]
+    names = [e[0] for e in tr]
+    creates = [e for e in tr if e[0] == 'create_task']
+    stores = [e for e in tr if e[0] == 'daemons.set']
+    absent = Not(it.present0)
+    vc.ensure('spawn_only_absent', len(creates) <= 1 and len(stores) <= 1 and 'daemons.del' not in names)
+    vc.ensure('spawn_only_absent', Iff(len(creates) == 1, absent))
+    vc.ensure('spawn_only_absent', Iff(len(stores) == 1, absent))
+    vc.canary('canary.always_spawns', len(creates) == 1)
+    vc.ensure('frame', 'memory.write' not in names)
+    if not creates or not stores:
+        vc.ensure('spawn_only_absent', running.value is it.value0)
+        return
+    # atomic segment: membership test ... create_task ... store, without a suspension point
+    first_test = names.index('daemons.contains') if 'daemons.contains' in names else None
+    i_store = names.index('daemons.set')
+    i_create = names.index('create_task')
+    vc.ensure('atomic_register', first_test is not None and first_test < i_create < i_store)
+    vc.ensure('atomic_register', 'suspend' not in names[(first_test or 0):i_store + 1])
+    key, rec = stores[0][1], stores[0][2]
+    coro, task = creates[0][1], creates[0][2]
+    vc.ensure('atomic_register', key == it.h.id and rec.task is task)
+    jobs = [e[1] for e in tr if e[0] == 'runner.coro']
+    vc.ensure('runner_wired', len(jobs) == 1 and coro is jobs[0])
+    if len(jobs) == 1:
+        kw = jobs[0].kw
+        st = rec.stopper
+        vc.ensure('runner_wired', rec.handler is it.h and kw.get('handler') is it.h and kw.get('daemons') is running
+                  and kw.get('memory') is memory and kw.get('settings') is settings)
+        vc.ensure('runner_wired', kw['cause'].stopper is st and not st.is_set() and st.reason is None)
+        vc.ensure('runner_wired', kw['cause'].body is memory.live_fresh_body)
+
+
+def _d1_runner(vc):
+    clock = Clock()
+    g = Ghost(flags_at_end=None, outcome=None)
+    settings = Opaque('settings')
+    h = mk_handler(vc, 'd', sym=False)
+    stopper = SymStopper(vc, clock, 'stopper', fresh=True)
+    cause = Opaque('daemon-cause', stopper=stopper)
+    task = SymTask(vc, clock, 'own-task', done=False)
+    me = daemons.Daemon(task=task, logger=NullLogger(), handler=h, stopper=stopper)
+    other = Opaque('another-daemon')
+    running = RegDict(vc, 'running_daemons', key='d', present=True, value=me)
+    had = vc.nondet(2, 'id already in forever_stopped?') == 1
+    forever = TracedSet(vc, {'other'} | ({'d'} if had else set()))
+    memory = TracedMemory(vc, live_fresh_body=Opaque('live-body'), forever_stopped=forever, running_daemons=running,
+                          idle_reset_time=clock.now)
+    kinds = ['return', 'cancelled', 'error']
+
+    def guarded(which):
+        async def wrapper(**kw):
+            vc.emit('guarded', which, kw)
+            await suspend(which)
+            g.outcome = kinds[vc.nondet(3, f'{which}: returns / is cancelled / fails')]
+            g.flags_at_end = dict(stopper.flags)
+            vc.emit('guarded.end', which)
+            if g.outcome == 'cancelled':
+                raise asyncio.CancelledError()
+            if g.outcome == 'error':
+                raise ValueError('any exception out of the daemon/timer wrapper')
+        return wrapper
+
+    def on_suspend(site):
+        clock.advance()
+        stopper.havoc()
+        vc.emit('suspend', site)
+
+    def element(loc, iterable):
+        mode = iteration_mode(iterable, running)
+        if mode is None or mode[1] != 'values':
+            raise Unsupported(f'_runner walks something else than memory.running_daemons: {iterable!r}')
+        return [_STOP, me, other][vc.nondet(3, 'exhausted / own record / another daemon')]
+
+    def havoc(loc):
+        return {k: vc.bool('can-free') for k, v in loc.items() if v is True and not k.startswith('__')}
+
+    ld = vc.load('kopf._core.engines.daemons', '_runner', stubs={'_daemon': guarded('_daemon'), '_timer': guarded('_timer')},
+                 loops={1: LoopSpec('for running_daemon in', havoc=havoc, element=element)})
+    escaped = None
+    try:
+        vc.drive(ld.fn(settings=settings, daemons=running, handler=h, memory=memory, cause=cause), on_suspend)
+    except (asyncio.CancelledError, ValueError) as e:
+        escaped = e
+    tr = vc.trace
+    names = [e[0] for e in tr]
+    calls = [e for e in tr if e[0] == 'guarded']
+    want = '_daemon' if isinstance(h, handlers.DaemonHandler) else '_timer'
+    vc.ensure('wraps_by_kind', len(calls) == 1 and calls[0][1] == want)
+    if len(calls) == 1:
+        kw = calls[0][2]
+        vc.ensure('wraps_by_kind', kw.get('handler') is h and kw.get('cause') is cause and kw.get('settings') is settings
+                  and (want == '_daemon' or kw.get('memory') is memory))
+    vc.ensure('propagates', (g.outcome == 'return') == (escaped is None) and
+              (g.outcome != 'cancelled' or isinstance(escaped, asyncio.CancelledError)) and
+              (g.outcome != 'error' or isinstance(escaped, ValueError)))
+    # -- forever_stopped
+    self_exit = Not(Or(*g.flags_at_end.values()))
+    vc.ensure('forever_stopped_iff_self_exit', Iff('d' in forever, Or(had, self_exit)))
+    vc.ensure('forever_stopped_iff_self_exit', set(forever) - {'d'} == {'other'})
+    vc.canary('canary.never_forever_stopped', 'd' not in forever)
+    # -- removal
+    dels = [i for i, n in enumerate(names) if n == 'daemons.del']
+    vc.ensure('removal_last', len(dels) == 1 and not running.present and 'daemons.set' not in names)
+    if len(dels) == 1:
+        i = dels[0]
+        vc.ensure('removal_last', 'guarded.end' in names[:i])
+        after = tr[i + 1:]
+        vc.ensure('removal_last', all(e[0] == 'stopper.set' and e[1] is stopper and e[2] is SR.DONE for e in after))
+    vc.ensure('done_flag', stopper.is_set(SR.DONE))
+    return ('runner', g.outcome, 'd' in forever)
+
+
+# =============================================================================================== D3
+@harness('D3', targets=['kopf._core.engines.daemons.match_daemons', 'kopf._core.engines.daemons.pause_daemons',
+                        'kopf._core.engines.daemons.daemon_killer'], props=['C09', 'C13', 'C20'],
+         clauses=['match.stops_exactly_mismatching', 'match.reason', 'match.delays',
+                  'pause.iff_paused', 'pause.reason_all', 'pause.delays',
+                  'killer.pause_stops_all', 'killer.pause_only_when_paused', 'killer.exit_stops_all',
+                  'killer.waits_before_close', 'killer.crash_free'],
+         canaries=['canary.match.stops_all', 'canary.pause.always_stops', 'canary.killer.never_closes'],
+         trusted=['daemons.stop_daemons / stop_daemon by contract D2 (here: recorded, suspend, arbitrary delays)',
+                  'aiotasks.Scheduler: spawn(coro) takes ownership of the coroutine and suspends; wait() returns when all '
+                  'spawned coroutines have finished; close() cancels the rest',
+                  'aiotoggles.ToggleSet: is_on() reads the shared pause state; wait_for(s) returns when the state is s',
+                  'asyncio.timeout(t): turns the cancellation it injects after t seconds into TimeoutError'],
+         assumes=['match_daemons: handler ids are hashable constants; the mapping is drawn over a universe of 3 ids with every '
+                  'combination of "currently matching" x "running" (the set/dict comprehensions cannot be cut by a loop contract)',
+                  'daemon_killer: the task is cancelled once (operator exit); no second cancellation while its finally block runs'])
+def D3(vc):
+    """
+    Who gets stopped, and why.
+    match_daemons:  exactly the running daemons whose handler id is not among the currently matching handlers are
+                    handed to stop_daemons, with reason FILTERS_MISMATCH; its delays are returned.
+    pause_daemons:  stop_daemons(all running daemons, OPERATOR_PAUSING) iff operator_paused is given and on;
+                    its delays are returned, none otherwise.
+    daemon_killer:  (loop contracts: one arbitrary memory, one arbitrary running daemon)
+      killer.pause_stops_all / pause_only_when_paused  while the pause toggle is observed on, every running daemon
+                    of every memory gets stop_daemon(reason=OPERATOR_PAUSING) scheduled, and only then;
+      killer.exit_stops_all     when the task is cancelled (operator exit) or fails, every running daemon of every
+                    memory gets stop_daemon(reason=OPERATOR_EXITING) scheduled;
+      killer.waits_before_close the scheduler is awaited after the last stopper was scheduled and before it is closed;
+      killer.crash_free         dicts shared with other tasks (memories, running_daemons) are not walked as live
+                    views across a suspension point: runners delete their entries (and deleted objects are forgotten)
+                    whenever the killer is suspended, and the next step of a live view then raises RuntimeError --
+                    the killer dies and the remaining daemons are never asked to stop.
+    """
+    k = vc.nondet(3, 'match_daemons | pause_daemons | daemon_killer')
+    if k == 0:
+        return _d3_match(vc)
+    if k == 1:
+        return _d3_pause(vc)
+    return _d3_killer(vc)
+
+
+def _stop_daemons_stub(vc):
+    async def stop_daemons(**kw):
+        delays = vc.seq('stop_daemons.delays', 'real')
+        vc.emit('stop_daemons', kw, delays)
+        await suspend('stop_daemons')
+        return delays
+    return stop_daemons
+
+
+def _d3_match(vc):
+    settings = Opaque('settings')
+    universe = ['a', 'b', 'c']
+    hs, running, expected = [], {}, set()
+    for i in universe:
+        matching = vc.nondet(2, f'{i} matches now?') == 1
+        runs = vc.nondet(2, f'{i} is running?') == 1
+        h = Opaque(f'handler-{i}', id=i)
+        if matching:
+            hs.append(h)
+        if runs:
+            running[i] = daemons.Daemon(task=Opaque('task'), logger=NullLogger(), handler=h, stopper=Opaque('stopper'))
+            if not matching:
+                expected.add(i)
+    before = dict(running)
+    ld = vc.load('kopf._core.engines.daemons', 'match_daemons', stubs={'stop_daemons': _stop_daemons_stub(vc)})
+    result = vc.drive(ld.fn(settings=settings, handlers=hs, daemons=running), lambda site: None)
+    calls = [e for e in vc.trace if e[0] == 'stop_daemons']
+    stopped = {}
+    for e in calls:
+        kw = e[1]
+        vc.ensure('match.reason', kw.get('reason') is SR.FILTERS_MISMATCH and kw.get('settings') is settings)
+        for d in kw['daemons'].values():
+            stopped[d.handler.id] = d
+    vc.ensure('match.stops_exactly_mismatching', set(stopped) == expected and all(stopped[i] is before[i] for i in stopped))
+    vc.ensure('match.stops_exactly_mismatching', running == before)
+    total = 0
+    for e in calls:
+        total = total + vc_len(e[2])
+    vc.ensure('match.delays', Eq(vc_len(result), total))
+    if len(calls) == 1:
+        vc.ensure('match.delays', Eq(result, calls[0][2]))
+    vc.canary('canary.match.stops_all', set(stopped) == set(before))
+    return ('match', sorted(stopped))
+
+
+def _d3_pause(vc):
+    settings = Opaque('settings')
+    running = LiveDict('running_daemons')
+    on = vc.bool('operator_paused.is_on')
+    toggle = Opaque('operator_paused')
+    toggle.is_on = lambda: on
+    toggle.is_off = lambda: Not(on)
+    paused = [None, toggle][vc.nondet(2, 'operator_paused given?')]
+    ld = vc.load('kopf._core.engines.daemons', 'pause_daemons', stubs={'stop_daemons': _stop_daemons_stub(vc)})
+    result = vc.drive(ld.fn(settings=settings, daemons=running, operator_paused=paused), lambda site: None)
+    calls = [e for e in vc.trace if e[0] == 'stop_daemons']
+    is_paused = False if paused is None else on
+    vc.ensure('pause.iff_paused', len(calls) <= 1)
+    vc.ensure('pause.iff_paused', Iff(len(calls) == 1, is_paused))
+    for e in calls:
+        kw = e[1]
+        vc.ensure('pause.reason_all', kw.get('reason') is SR.OPERATOR_PAUSING and kw.get('daemons') is running
+                  and kw.get('settings') is settings)
+        vc.ensure('pause.delays', Eq(result, e[2]))
+    if not calls:
+        vc.ensure('pause.delays', vc_len(result) == 0)
+    vc.canary('canary.pause.always_stops', len(calls) == 1)
+    return ('pause', len(calls))
+
+
+class _TimeoutFired(asyncio.CancelledError):
+    """the cancellation asyncio.timeout() injects when its deadline passes"""
+
+
+def _d3_killer(vc):
+    g = Ghost(susp=0, thrown=False, paused=vc.bool('paused0'), in_timeout=0, mem=None, memit=None, dit=None,
+              calls={})
+    settings = Opaque('settings')
+    memdict = LiveDict('memories')
+    memories = Opaque('memories')
+    memories.iter_all_daemon_memories = lambda: LiveView(memdict, 'values')     # a generator over the live dict
+
+    def maybe_cancel(site):
+        if not g.thrown and vc.nondet(2, f'{site}: the killer is cancelled here?') == 1:
+            g.thrown = True
+            raise asyncio.CancelledError()
+
+    async def susp(site):
+        g.susp += 1
+        vc.emit('suspend', site)
+        await suspend(site)
+        g.paused = vc.bool('paused')         # other tasks (peering) flip the pause toggle meanwhile
+
+    class Toggle:
+        def is_on(self):
+            vc.emit('is_on', g.paused)
+            return g.paused
+
+        async def wait_for(self, state):
+            vc.emit('wait_for', state)
+            if Eq(g.paused, bool(state)):
+                return
+            await susp('operator_paused.wait_for')
+            if not g.thrown:
+                k = vc.nondet(3 if g.in_timeout else 2, 'wait_for: state reached / cancelled / timeout fired')
+                if k == 1:
+                    g.thrown = True
+                    raise asyncio.CancelledError()
+                if k == 2:
+                    raise _TimeoutFired()
+            vc.assume(Eq(g.paused, bool(state)), 'wait_for returns when the toggle has the awaited state')
+
+    class Timeout:
+        def __init__(self, delay):
+            self.delay = delay
+
+        async def __aenter__(self):
+            g.in_timeout += 1
+            return self
+
+        async def __aexit__(self, et, e, tb):
+            g.in_timeout -= 1
+            if et is not None and issubclass(et, _TimeoutFired):
+                raise TimeoutError() from e
+            return False
+
+    class Scheduler:
+        def __init__(self, **kw):
+            vc.emit('sched.new', kw)
+
+        async def spawn(self, coro, *, name=None):
+            vc.emit('spawn', coro)
+            await susp('scheduler.spawn')
+            maybe_cancel('scheduler.spawn')
+
+        async def wait(self):
+            vc.emit('sched.wait')
+            await susp('scheduler.wait')
+
+        async def close(self):
+            vc.emit('sched.close')
+            await susp('scheduler.close')
+
+    def stop_daemon(**kw):
+        return Ghost(kw=kw)
+
+    def crash_free(it):
+        bad = it.mode == 'live' and g.susp > it.susp
+        vc.ensure('killer.crash_free', not bad, excuse={FINDING_LIVE_ITERATION: bad})
+
+    def mem_loop(anchor):
+        def element(loc, iterable):
+            mode = iteration_mode(iterable, memdict)
+            if mode is None or mode[1] != 'values':
+                raise Unsupported(f'daemon_killer walks something else than the memories: {iterable!r}')
+            if vc.nondet(2, 'memories exhausted?') == 0:
+                return _STOP
+            g.mem = Opaque('memory', running_daemons=LiveDict('running_daemons'))
+            g.memit = Ghost(mode=mode[0], susp=g.susp)
+            return g.mem
+
+        def invariant(loc):
+            n = g.calls[anchor] = g.calls.get(anchor, 0) + 1
+            if n == 3:
+                crash_free(g.memit)
+            return True
+        return LoopSpec('for memory in', invariant=invariant, element=element, name=anchor)
+
+    def daemon_loop(anchor, reason, clause):
+        def havoc(loc):
+            # summary of the earlier turns of this loop: each of them suspends in scheduler.spawn
+            if vc.nondet(2, f'{anchor}: earlier turns (which suspend) happened?') == 1:
+                g.susp += 1
+            return {}
+
+        def element(loc, iterable):
+            mode = iteration_mode(iterable, g.mem.running_daemons)
+            if mode is None or mode[1] != 'values':
+                raise Unsupported(f'daemon_killer walks something else than memory.running_daemons: {iterable!r}')
+            if vc.nondet(2, 'daemons exhausted?') == 0:
+                return _STOP
+            g.dit = Ghost(mode=mode[0], susp=g.susp, since=len(vc.trace), d=Opaque('daemon'))
+            return g.dit.d
+
+        def invariant(loc):
+            n = g.calls[anchor] = g.calls.get(anchor, 0) + 1
+            if n == 3:
+                it = g.dit
+                spawns = [e[1] for e in vc.trace[it.since:] if e[0] == 'spawn']
+                vc.ensure(clause, len(spawns) == 1 and isinstance(spawns[0], Ghost)
+                          and spawns[0].kw.get('daemon') is it.d and spawns[0].kw.get('reason') is reason
+                          and spawns[0].kw.get('settings') is settings)
+                crash_free(it)
+            return True
+        return LoopSpec('for daemon in', invariant=invariant, havoc=havoc, element=element, name=anchor)
+
+    ld = vc.load('kopf._core.engines.daemons', 'daemon_killer', stubs={
+        'aiotasks.Scheduler': Scheduler, 'stop_daemon': stop_daemon, 'asyncio.timeout': Timeout,
+    }, loops={
+        1: LoopSpec('while True'),
+        2: LoopSpec('while operator_paused.is_on()'),
+        3: mem_loop('pausing: for memory'),
+        4: daemon_loop('pausing: for daemon', SR.OPERATOR_PAUSING, 'killer.pause_stops_all'),
+        5: mem_loop('exiting: for memory'),
+        6: daemon_loop('exiting: for daemon', SR.OPERATOR_EXITING, 'killer.exit_stops_all'),
+    })
+    escaped = None
+    try:
+        vc.drive(ld.fn(settings=settings, memories=memories, operator_paused=Toggle()), lambda site: None)
+    except asyncio.CancelledError as e:
+        escaped = e
+    # Only the paths that leave the finally block normally arrive here (the others end at a back edge).
+    tr = vc.trace
+    names = [e[0] for e in tr]
+    vc.ensure('killer.waits_before_close', names.count('sched.wait') >= 1 and names.count('sched.close') == 1)
+    if 'sched.wait' in names and 'sched.close' in names:
+        last_wait = max(i for i, n in enumerate(names) if n == 'sched.wait')
+        vc.ensure('killer.waits_before_close', last_wait < names.index('sched.close')
+                  and 'spawn' not in names[last_wait:])
+    vc.canary('canary.killer.never_closes', 'sched.close' not in names)
+    _killer_pause_guard(vc)
+    return ('killer', type(escaped).__name__)
+
+
+def _killer_pause_guard(vc):
+    """every OPERATOR_PAUSING stopper is scheduled in a round that started with the toggle observed on"""
+    last = None
+    for e in vc.trace:
+        if e[0] == 'is_on':
+            last = e[1]
+        elif e[0] == 'wait_for':
+            last = None
+        elif e[0] == 'spawn' and isinstance(e[1], Ghost) and e[1].kw.get('reason') is SR.OPERATOR_PAUSING:
+            vc.ensure('killer.pause_only_when_paused', last is not None and last)
+
+
+# =============================================================================================== H7
+@harness('H7', targets='kopf._core.reactor.processing.process_spawning_cause', props=['C09', 'C10'],
+         clauses=['deletion_stops_all', 'spawn_match_pause_order', 'excludes_forever_stopped', 'body_before_spawn',
+                  'delays_passed_on', 'idle_reset_iff_reset'],
+         canaries=['canary.always_spawns', 'canary.never_resets'],
+         trusted=['finalizers.is_deletion_ongoing by contract K2 (a boolean function of the body)',
+                  'registry._spawning.get_handlers by contract R1/R3 (returns the matching handlers, none of the excluded ids)',
+                  'daemons.spawn_daemons (D1), match_daemons / pause_daemons (D3), stop_daemons (D2) by contract: recorded, suspend, arbitrary delays'])
+def H7(vc):
+    """
+    process_spawning_cause, per event of one object:
+      deletion_stops_all       deletion mark => stop_daemons(all running daemons of the object, reason RESOURCE_DELETED)
+                               and nothing is spawned, matched or paused;
+      spawn_match_pause_order  otherwise: get_handlers -> spawn_daemons -> match_daemons -> pause_daemons, strictly in that
+                               order, each once, all on the object's running-daemons dict, spawn and match with the
+                               handlers just selected, pause with the operator's pause toggle;
+      excludes_forever_stopped the handlers are selected with excluded = memory.forever_stopped (self-exited daemons
+                               are never started again);
+      body_before_spawn        when spawn_daemons is called the memory holds a live body (its precondition);
+      delays_passed_on         all delays of the callees are returned (C06: the finalizer stays while daemons exit);
+      idle_reset_iff_reset     idle_reset_time := loop time of this call iff cause.reset, untouched otherwise (C10).
+    """
+    clock = Clock()
+    settings = Opaque('settings')
+    running = LiveDict('running_daemons')
+    forever = Opaque('forever_stopped')
+    body = Opaque('cause-body')
+    body0 = [None, Opaque('earlier-body')][vc.nondet(2, 'memory already holds a live body?')]
+    idle0 = vc.real('idle_reset_time0')
+    dm = TracedMemory(vc, live_fresh_body=body0, forever_stopped=forever, running_daemons=running, idle_reset_time=idle0)
+    memory = Opaque('memory', daemons_memory=dm)
+    reset = vc.bool('cause.reset')
+    cause = Opaque('cause', body=body, reset=reset, logger=NullLogger())
+    deleting = vc.bool('is_deletion_ongoing(body)')
+    selected = Opaque('selected-handlers')
+    paused = [None, Opaque('operator_paused')][vc.nondet(2, 'operator_paused given?')]
+    t_in = clock.now
+
+    def get_handlers(**kw):
+        vc.emit('get_handlers', kw)
+        return selected
+    registry = Opaque('registry', _spawning=Opaque('spawning-registry', get_handlers=get_handlers))
+
+    def callee(name):
+        async def stub(**kw):
+            delays = vc.seq(f'{name}.delays', 'real')
+            vc.emit(name, kw, delays, dm.live_fresh_body)
+            await suspend(name)
+            return delays
+        return stub
+
+    def is_deletion_ongoing(b):
+        vc.emit('is_deletion_ongoing', b)
+        return deleting
+
+    def on_suspend(site):
+        clock.advance()
+
+    ld = vc.load('kopf._core.reactor.processing', 'process_spawning_cause', stubs={
+        'finalizers.is_deletion_ongoing': is_deletion_ongoing,
+        'daemons.stop_daemons': callee('stop_daemons'), 'daemons.spawn_daemons': callee('spawn_daemons'),
+        'daemons.match_daemons': callee('match_daemons'), 'daemons.pause_daemons': callee('pause_daemons'),
+        'asyncio.get_running_loop': lambda: StubLoop(clock),
+    })
+    result = vc.drive(ld.fn(registry=registry, settings=settings, memory=memory, cause=cause, operator_paused=paused), on_suspend)
+    t_out = clock.now
+    tr = vc.trace
+    names = [e[0] for e in tr if e[0] in ('get_handlers', 'stop_daemons', 'spawn_daemons', 'match_daemons', 'pause_daemons')]
+    ev = {e[0]: e for e in tr}
+    for e in tr:
+        if e[0] == 'is_deletion_ongoing':
+            vc.ensure('deletion_stops_all', e[1] is body)
+    vc.ensure('deletion_stops_all', Implies(deleting, names == ['stop_daemons']))
+    vc.ensure('spawn_match_pause_order', Implies(Not(deleting), names == ['get_handlers', 'spawn_daemons', 'match_daemons', 'pause_daemons']))
+    vc.canary('canary.always_spawns', 'spawn_daemons' in names)
+    total = 0
+    for n in ('stop_daemons', 'spawn_daemons', 'match_daemons', 'pause_daemons'):
+        for e in tr:
+            if e[0] == n:
+                total = total + vc_len(e[2])
+                vc.ensure('spawn_match_pause_order' if n != 'stop_daemons' else 'deletion_stops_all',
+                          e[1].get('daemons') is running and e[1].get('settings') is settings)
+    if 'stop_daemons' in ev:
+        kw = ev['stop_daemons'][1]
+        vc.ensure('deletion_stops_all', kw.get('reason', SR.RESOURCE_DELETED) is SR.RESOURCE_DELETED)
+    if 'get_handlers' in ev:
+        kw = ev['get_handlers'][1]
+        vc.ensure('excludes_forever_stopped', kw.get('excluded') is forever and kw.get('cause') is cause)
+    if 'spawn_daemons' in ev:
+        kw = ev['spawn_daemons'][1]
+        vc.ensure('spawn_match_pause_order', kw.get('handlers') is selected and kw.get('memory') is dm and kw.get('cause') is cause)
+        vc.ensure('body_before_spawn', ev['spawn_daemons'][3] is not None)
+        vc.ensure('body_before_spawn', ev['spawn_daemons'][3] is (body0 if body0 is not None else body))
+    if 'match_daemons' in ev:
+        vc.ensure('spawn_match_pause_order', ev['match_daemons'][1].get('handlers') is selected)
+    if 'pause_daemons' in ev:
+        vc.ensure('spawn_match_pause_order', ev['pause_daemons'][1].get('operator_paused') is paused)
+    vc.ensure('delays_passed_on', Eq(vc_len(result), total))
+    if names == ['stop_daemons']:
+        vc.ensure('delays_passed_on', Eq(result, ev['stop_daemons'][2]))
+    # -- idle reset (C10)
+    new = dm.idle_reset_time
+    vc.ensure('idle_reset_iff_reset', Implies(Not(reset), Eq(new, idle0)))
+    vc.ensure('idle_reset_iff_reset', Implies(reset, Eq(new, t_in)))
+    writes = [e for e in tr if e[0] == 'memory.write' and e[1] not in ('live_fresh_body', 'idle_reset_time')]
+    vc.ensure('idle_reset_iff_reset', not writes)
+    vc.canary('canary.never_resets', Eq(new, idle0))
+    return ('spawning', names, vc_len(result))
